@@ -114,8 +114,9 @@ fn exclude_for_pinned(op: simtypes::Op, args: &[&[u8]], a: &simtypes::Out, b: &s
     use simtypes::{Codec, Op, Ty};
     let byte_codec = |c: u8| matches!(Codec::from_u8(c), Some(Codec::Bytes | Codec::BytesVec | Codec::BytesRefVec | Codec::BytesBox | Codec::Be | Codec::Le));
     // the old release's human-readable decoders insist on BORROWED strings (fixed finding F13 for the share types; its
-    // curve crate does the same for scalars and points): reading through a reader or a parsed document is not comparable
-    let front_end = |c: u8| matches!(Codec::from_u8(c), Some(Codec::JsonReader | Codec::JsonValue));
+    // curve crate does the same for scalars and points): reading through a reader, a parsed document or the harness's own
+    // human-readable format (which lends strings for the duration of a visit only) is not comparable
+    let front_end = |c: u8| matches!(Codec::from_u8(c), Some(Codec::JsonReader | Codec::JsonValue | Codec::TreeHr));
     match op {
         Op::Recode if args.len() >= 3 && (front_end(args[1][0]) || front_end(args[2][0])) => true,
         Op::ValueEq if args.len() >= 4 && (front_end(args[1][0]) || front_end(args[3][0])) => true,
